@@ -31,7 +31,10 @@ func GetIndexLetters(document *gedcom.Document, livingVisibility LivingVisibilit
 		case LivingVisibilityShow, LivingVisibilityPlaceholder:
 			letterMap[getIndexLetter(individual)] = true
 		case LivingVisibilityHide:
-			// nothing
+			// Only the individuals that will be shown.
+			if !individual.IsLiving() {
+				letterMap[getIndexLetter(individual)] = true
+			}
 		}
 	}
 
